@@ -267,7 +267,12 @@ async fn queued_peers_vanish(q: usize, id: u64) -> Out {
     let topic_a = format!("/stallv{}/topic-a", id);
     let topic_b = format!("/freev{}/topic-b", id);
     let tn_a = TopicName::try_from(topic_a.as_str()).unwrap();
-    let stall_conn = match raw_connect(addr, &certs).await {
+    // the stalled peer reads nothing, but its connection must outlive the server's 2 s idle timeout: PINGs every 300 ms
+    let stall_cfg = match (|| -> anyhow::Result<quinn::ClientConfig> { raw_client_config_full(&read_der(&certs.client_ca())?, ClientIdentity::Cert(read_der(&certs.client_cert())?, read_der(&certs.client_key())?), None, Duration::from_millis(300)) })() {
+        Ok(c) => c,
+        Err(e) => return Out::Inconclusive(format!("client config: {e}")),
+    };
+    let stall_conn = match raw_connect_with(addr, stall_cfg).await {
         Ok(c) => c,
         Err(e) => return Out::Inconclusive(format!("raw connect: {e}")),
     };
@@ -278,18 +283,6 @@ async fn queued_peers_vanish(q: usize, id: u64) -> Out {
     if r != Some(Frame::Ok) {
         return Out::Inconclusive(format!("stalled subscriber answered {:?}", r));
     }
-    // keep the stalled peer's own connection alive by reading nothing but pinging (quinn keep-alive 2 s is too slow for
-    // a 2 s idle timeout): a second stream on it is polled in the background
-    let keep_alive_conn = stall_conn.conn.clone();
-    let pinger = tokio::spawn(async move {
-        loop {
-            if let Ok(mut s) = keep_alive_conn.open_uni().await {
-                let _ = s.write_all(b"x").await;
-                let _ = s.finish().await;
-            }
-            tokio::time::sleep(Duration::from_millis(400)).await;
-        }
-    });
     let pc = match lib_client(&addr.to_string(), &certs, None).await {
         Ok(c) => c,
         Err(e) => return Out::Inconclusive(format!("connect: {e}")),
@@ -313,7 +306,6 @@ async fn queued_peers_vanish(q: usize, id: u64) -> Out {
         }
     }
     if !blocked {
-        pinger.abort();
         return Out::Inconclusive(format!("precondition not reached: publisher never blocked after {} × 32 KiB", sent));
     }
     // q registrations queue up on A through a relay …
@@ -345,6 +337,9 @@ async fn queued_peers_vanish(q: usize, id: u64) -> Out {
         left -= batch;
         conns.push(c);
     }
+    if std::env::var("VERIF_C17_DEBUG").is_ok() {
+        eprintln!("vanish: q={} conns={} streams answered={} flood sent={}", q, conns.len(), streams.len(), sent);
+    }
     // … and vanish: nothing of theirs reaches the server any more, nothing of the server's reaches them
     relay.blackhole_existing();
     tokio::time::sleep(Duration::from_millis(4200)).await;
@@ -367,11 +362,15 @@ async fn queued_peers_vanish(q: usize, id: u64) -> Out {
     };
     let res = tokio::time::timeout(Duration::from_secs(12), fut).await;
     let took = t1.elapsed().as_millis();
-    pinger.abort();
+    // the stall must have lasted: the subscriber that does not read is still connected
+    let stall_ended = stall_conn.conn.close_reason();
     relay.stop();
     server.1.abort();
     drop(streams);
     drop(conns);
+    if let Some(why) = stall_ended {
+        return Out::Inconclusive(format!("precondition not kept: the stalled subscriber's connection ended during the scenario ({})", why));
+    }
     match res {
         Ok(Ok(())) => Out::Held { b_roundtrip_ms: took, queued_ok: q },
         Ok(Err(e)) => Out::Violated("other-topic-failed/after-queued-peers-vanished".into(), format!("topic A stalled, {} registrations queued on it, then the queued peers vanished without closing (server idle timeout 2 s, 4.2 s waited): topic B could not be used: {}", q, e)),
